@@ -335,6 +335,17 @@ def p_C12(ctx):
 def p_C13(ctx):
     flow_trace(ctx, "conv", 10 ** 9, 10 ** 9, chunk=4000)
     flow_levelb(ctx, "ImplMontDiv", {"W": 2, "M": 181}, ["DivOK", "InvOK"], init="InitD", nxt="NextD")
+    levelb_conv(ctx)
+
+
+def levelb_conv(ctx):
+    """The conversion layer (length dispatch of from_slice, from_hash, from_str, to_slice, set_bit) transcribed on the limb
+    routines of ImplMont: every digit string up to one digit beyond the double-width limit, every decimal string of <= 3 symbols."""
+    inv = ["SliceOK", "HashOK", "StrOK", "RoundTripOK", "SetBitOK"]
+    for m in ([13] if ctx.quick() else [9, 11, 13, 15]):
+        flow_levelb(ctx, "ImplConv", {"W": 1, "M": m, "MaxLen": 5}, inv, init="CInit", nxt="CNext")
+    for m in ([181] if ctx.quick() else [131, 181, 251]):
+        flow_levelb(ctx, "ImplConv", {"W": 2, "M": m, "MaxLen": 4}, inv, init="CInit", nxt="CNext")
 
 
 def twist_file(ctx, npts):
@@ -570,7 +581,7 @@ META = {
             "text": "Recorded Gt products, powers (boundary and random exponents), inverses, one and equality tests on pairing values, their products, powers and inverses are recomputed by TLC in the polynomial representation of F_q^12; group and exponent laws are checked between recorded values and anchored to the specification; every 32-byte limb must be below q."},
     "C12": {"technique": "TLC trace validation of Fq2 operations against Fq[u]/(u^2+2) with TLC-generated carry-class, quotient-pattern and cancellation operand families; exhaustive TLC model check of the transcribed sum_of_products (ImplMontSop)",
             "text": "Every recorded Fq2 operation (all operator forms, neg, parts, new, from_slice, ==, ring laws, and the doubling of (x,y,1) observed through G2 accessors) is recomputed by TLC in Fq[u]/(u^2+2) from the logged encodings; components from the boundary pool, zero components and random values."},
-    "C13": {"technique": "TLC trace validation of byte/decimal/hash conversions and set_bit against n mod p; exhaustive TLC model check of the transcribed U512::divrem (ImplMontDiv)",
+    "C13": {"technique": "TLC trace validation of byte/decimal/hash conversions and set_bit against n mod p; exhaustive TLC model checks of the transcribed U512::divrem (ImplMontDiv) and of the transcribed conversion layer over every short input string (ImplConv)",
             "text": "from_slice/TryFrom for every length 0..70 and several fills (including multiples of p and r-1 near the top of the range), interpret, from_str on digit and non-digit strings, from_hash, to_big_endian with every buffer length, round trips and set_bit for every index 0..300 are validated event by event by TLC against the integer specification."},
 }
 
